@@ -192,6 +192,9 @@ def check(an: Analysis) -> None:
         if w is not None:
             ob.fail(f, cancels[0].ast, "outside any task ctx.cancel returns silently instead of raising", CFG.show_path(w))
 
+    # ------------------------------------------------------------------ C07.5-7 cancellation while entering; spawns stay inside the group
+    _borrowed(an)
+
     # ------------------------------------------------------------------ C07.4 children cancelled with the body
     ob = an.ob("C07.4", "K5", "= C06.3: the body's exception (incl. CancelledError) is forwarded to asyncio.TaskGroup.__aexit__, which cancels the spawned tasks")
     sub = Analysis.__new__(Analysis)  # reuse the same program, separate obligation list
@@ -204,6 +207,14 @@ def check(an: Analysis) -> None:
             for fnd in o.findings:
                 fnd.prop, fnd.rule = "C07", "C07.4"
                 ob.findings.append(fnd)
+
+
+def _borrowed(an: Analysis) -> None:
+    from ..engine import borrow
+    from . import c02
+
+    borrow(an, c02.check, {"C02.4": "C07.5"})
+    borrow(an, c06.check, {"C06.1": "C07.6", "C06.2": "C07.7"})
 
 
 def liveness(fixtures: str) -> list[dict]:
